@@ -135,11 +135,14 @@ class TrackedAsyncIterator:
         self.aclose_calls = 0
         self.in_flight = 0
         self.fail_at, self.fail_exc = fail_at, fail_exc
+        self.started_step = None
 
     def __aiter__(self):
         return self
 
     async def __anext__(self):
+        if not self.started:
+            self.started_step = self.h.sched.step
         self.started = True
         label = f'{self.label}@next#{self.i}'
         self.h.entered.add(label)
